@@ -1194,3 +1194,6 @@ func Int2BV(w int, a *Term) *Term {
 	}
 	return mk(&Term{Op: OInt2BV, Sort: BV(w), Args: []*Term{a}, A: w})
 }
+
+// URange exposes the cheap unsigned interval of a bit-vector term.
+func URange(t *Term) (uint64, uint64) { return urange(t) }
